@@ -484,16 +484,16 @@ def aheadLoop : Nat → LexSt → Nat → Option Tok
     match lexNext l with
     | (none, _) => none
     | (some (.tok t), l') =>
-      if t.kind == .whitespace || t.kind == .comment then aheadLoop fuel l' n
+      if t.kind == .whitespace || t.kind == .comment || t.kind == .comma then aheadLoop fuel l' n
       else if n ≤ 1 then some t else aheadLoop fuel l' (n - 1)
     | (some _, l') => aheadLoop fuel l' n
 
-/-- `self.current_token.iter().cloned().chain(self.lexer.clone()).filter_map(ok).filter(not ws/comment).nth(n-1)`
+/-- `self.current_token.iter().cloned().chain(self.lexer.clone()).filter_map(ok).filter(not ws/comment/comma).nth(n-1)`
     — note: does NOT call `peek`, so `current_token` may be empty -/
 def lookahead (s : PState) (n : Nat) : Option Tok :=
   match s.current with
   | some t =>
-    if t.kind == .whitespace || t.kind == .comment then aheadLoop (s.lx.src.length + 3) s.lx n
+    if t.kind == .whitespace || t.kind == .comment || t.kind == .comma then aheadLoop (s.lx.src.length + 3) s.lx n
     else if n ≤ 1 then some t else aheadLoop (s.lx.src.length + 3) s.lx (n - 1)
   | none => aheadLoop (s.lx.src.length + 3) s.lx n
 
